@@ -275,6 +275,20 @@ def query_jobs(tier, seed):
     return jobs
 
 
+def conc_jobs(tier, seed):
+    """C20: every interleaving (at the accesses to the shared serialisation-mode cell and the changed flags) of two or three
+    reader threads, for several store shapes; TLC checks SequentialResults on the repaired design, the harness replays
+    every schedule in real threads parked by the yield hook and TLC validates tags and outputs against the model."""
+    quick = tier == 'quick'
+    jobs = []
+    combos = [(1, 1), (2, 1), (3, 1), (1, 3), (5, 1)] if quick else [(1, 1), (2, 1), (3, 1), (4, 1), (1, 3), (2, 3), (1, 2), (3, 2), (5, 1), (1, 4), (1, 5), (3, 4)]
+    for sh, op in combos:
+        jobs.append(dict(kind='mc', name=f'mc_sched_{sh}_{op}', module='Gen_Sched.tla', constants=dict(ShapeId=sh, OpsId=op, SharedMode=False),
+                         invariants=['InvSequential'], properties=[], workers=4, timeout=900))
+        jobs.append(dict(kind='module_gen', name=f'sched_{sh}_{op}', module='Gen_Sched.tla', constants=dict(ShapeId=sh, OpsId=op, SharedMode=True), style=0))
+    return jobs
+
+
 def parse_jobs(tier, seed):
     """C09: every query of the grammar menu (printed by the specification's canonical printer, and built programmatically),
     token-level mutations of a set of seed queries, and hand-written inputs outside the SELECT grammar."""
@@ -346,6 +360,10 @@ def plan_for(prop, tier, seed, replay_file=None):
     if prop in ('C05', 'C11', 'C15'):
         return dict(jobs=roundtrip_jobs(prop, tier, seed), rule=STORE_RULE + '; every history is extended with serialisation round trips '
                     'after which it continues on the reloaded store', assumptions=STORE_ASSUMPTIONS)
+    if prop == 'C20':
+        return dict(jobs=conc_jobs(tier, seed), rule='TLC enumerates every interleaving of the reader threads (Gen_Sched.tla); each schedule is '
+                    'replayed in real threads under the yield hook; TLC validates the recorded yield tags and outputs against '
+                    'StamConcurrency.tla and checks that every thread obtained its sequential result', assumptions=STORE_ASSUMPTIONS)
     if prop == 'C08':
         return dict(jobs=query_jobs(tier, seed), rule=TABLE_RULE, assumptions=STORE_ASSUMPTIONS)
     if prop == 'C09':
